@@ -92,7 +92,8 @@ def write_files(obj, fmt="text", variant=None, tag=""):
         if os.path.exists(p):
             os.remove(p)
         if use_nc:
-            mat.write_netcdf(p, inp, missing=variant.get("nc_missing", "nan"))
+            mat.write_netcdf(p, inp, missing=variant.get("nc_missing", "nan"), nc_format=variant.get("nc_format", "NETCDF4"),
+                             pad_time=bool(variant.get("nc_pad_time")) and n == 0)
         else:
             mat.write_text(p, inp, missing_token=variant.get("missing_token", "-999"),
                            row_order=variant.get("row_order"), col_order=variant.get("col_order"),
